@@ -248,6 +248,14 @@ def run(ctx, replay_cases=None):
                          no_input=True)
         return common.finish(ctx, trusted_base=trusted)
 
+    if replay_cases is not None:
+        for c in lines:
+            r = _run(ctx, ["v" + c[1:]])
+            if r is not None:
+                print("case:  " + c)
+                print("impl:  " + r[0][0])
+                print("model: " + r[1][0])
+                print("spec:  " + r[2][0])
     spec_bad, corr_bad, keys = [], [], set()
     hist_ops, hist_res, ntx = {}, {}, 0
     removed_hist = {}
